@@ -57,6 +57,15 @@ CHECKS.update({
    text="Breadth-first search over call histories of the generated keyed-list helpers New/GetOrCreate/Get/Append/Append(nil-key)/Delete/Rename for one list per Go key type (string, int64, uint64, decimal, bool, enum, identityref, union, leafref, two-key; 22 lists in simple/wrapper/compressed packages) over a 3-key domain, depth 5 (thorough 6), replayed on fresh real objects and compared after every call with a reference map from key tuple to entry identity: key leaves equal the map key in every state, rejected calls change nothing, GetOrCreate is idempotent, Get never creates, Rename moves the same object and rewrites its key leaves.",
    technique="explicit-state BFS over call histories of the real generated code against a reference map, every trace executed on the implementation", note=SEQ_NOTE),
 })
+
+CHECKS.update({
+ "C09": dict(engine="valmc", cat="exploration", sec="5/C09",
+   text="All ordered pairs of paths over a bounded alphabet (list x with keys k1,k2,k3 each absent/*/v1/v2, container y, up to 2 elements, 3x3 origins: 4423 paths, 7.1e8 judgements in quick; thorough adds 3-element spaces) are compared by ComparePaths, each pair several times with key maps built in different insertion orders (the implementation ranges over Go maps: differing answers are their own violation clause), against the true set relation computed by a reference denotation (bitset of concrete paths over a finite universe, keys in {v1,v2,v3}). The swap law and PathMatchesQuery, PathMatchesPrefix, PathMatchesPathElemPrefix, TrimGNMIPathElemPrefix, JoinPaths, FindPathElemPrefix are checked against the same tables.",
+   technique="exhaustive enumeration of all path pairs over a bounded alphabet on the real functions against a set-denotation reference", note=VAL_NOTE),
+ "C24": dict(engine="valmc", cat="exploration", sec="5/C24",
+   text="Messages of the repository's annotated test protos (exschemapath, gribi_aft) are built by protoreflect from the descriptors: the empty message, every single supported field set at any position through containers and keyed-list entries, and all compatible pairs (thorough: triples) over small value domains incl. zero values, MaxUint64 and strings with path metacharacters (47,714 cases quick; 2.98M thorough); each case is run repeatedly because protomap ranges over Go maps. PathsFromProto must succeed, leave m unchanged and emit exactly the keyed data-tree paths predicted from the yext.schemapath annotations; ProtoFromPaths into a new message must succeed and be proto.Equal to m.",
+   technique="exhaustive enumeration of messages with <=2 (3) populated fields over the annotated descriptors, round-trip law on the real functions", note=VAL_NOTE),
+})
 ALL = [json.loads(l)["id"] for l in open(os.path.join(V, "properties.jsonl"))]
 NA = {
 }
